@@ -290,7 +290,14 @@ Proof.
 Qed.
 
 (* ---------- bf_toggle with expected = true ---------- *)
-Ltac Zify.zify_post_hook ::= Z.div_mod_to_equations.
+Lemma bp_div64 r t : t < 64 -> (64 * r + t) / 64 = r /\ (64 * r + t) mod 64 = t.
+Proof.
+  intros Ht. split.
+  - symmetry. apply (N.div_unique (64 * r + t) 64 r t); [assumption | reflexivity].
+  - symmetry. apply (N.mod_unique (64 * r + t) 64 r t); [assumption | reflexivity].
+Qed.
+
+Ltac dm64 i := pose proof (N.div_mod i 64 ltac:(discriminate)); pose proof (N.mod_lt i 64 ltac:(discriminate)).
 
 Lemma bp_upd_row_bits rows r e e' :
   Forall (fun r => r < W64) rows -> nth_error rows (nn r) = Some e -> e' < W64 ->
@@ -365,7 +372,7 @@ Section Toggle.
     assert (Hrow : forall i, i / 64 = r -> N.testbit (rows_bits rows) i = N.testbit e (i mod 64)).
     { intros i Hi. rewrite bp_rows_bits_testbit by assumption. rewrite Hi, He. reflexivity. }
     assert (Hin : forall i, (p <=? i) && (i <? p + w) = (i / 64 =? r) && ((s <=? i mod 64) && (i mod 64 <? s + w))).
-    { intros i. destruct (N.leb_spec p i), (N.ltb_spec i (p + w)), (N.eqb_spec (i / 64) r),
+    { intros i. dm64 i. destruct (N.leb_spec p i), (N.ltb_spec i (p + w)), (N.eqb_spec (i / 64) r),
         (N.leb_spec s (i mod 64)), (N.ltb_spec (i mod 64) (s + w)); cbn [andb]; try reflexivity; exfalso; lia. }
     destruct (N.land e (mask64 w s) =? mask64 w s) eqn:C.
     - pose proof (proj1 (bp_land_eq_mask _ _) C) as Hm. cbn [toggle_true_post].
@@ -387,8 +394,7 @@ Section Toggle.
       assert (C' : (N.land e (mask64 w s) =? mask64 w s) = true).
       { apply bp_land_eq_mask. intros t Ht. rewrite bp_testbit_mask64 in Ht.
         apply andb_true_iff in Ht. destruct Ht as (T1 & T2). apply N.leb_le in T1. apply N.ltb_lt in T2.
-        assert (E1 : (64 * r + t) / 64 = r) by lia.
-        assert (E2 : (64 * r + t) mod 64 = t) by lia.
+        destruct (bp_div64 r t) as (E1 & E2); [lia|].
         rewrite <- E2, <- (Hrow (64 * r + t) E1). apply Hall. lia. }
       congruence.
   Qed.
@@ -406,7 +412,8 @@ Section Toggle.
     rewrite (bp_HF_rows_nat g WF), <- Hl in Hfit.
     set (di := (f / 64) mod ROWS g) in *. set (p := f mod HF g) in *.
     set (nr := Nat.pow 2 (k - 6)) in *. rewrite Ew in *. clear Ew.
-    assert (Ep : p = 64 * di) by lia.
+    assert (Ep : p = 64 * di).
+    { pose proof (N.div_mod p 64 ltac:(discriminate)). lia. }
     destruct (toggle_rows rows (nn di) nr true) as [rows'|] eqn:T; cbn [toggle_true_post].
     - apply bp_toggle_rows_some in T. destruct T as (Hl' & Hold & Hnew).
       split; [|split].
@@ -414,10 +421,10 @@ Section Toggle.
         destruct ((nn di <=? j)%nat && (j <? nn di + nr)%nat).
         * injection Hj as <-. reflexivity.
         * eapply bp_Forall_nth_inv; eassumption.
-      + intros i Hi. rewrite bp_rows_bits_testbit by assumption.
+      + intros i Hi. dm64 i. rewrite bp_rows_bits_testbit by assumption.
         rewrite Hold by (unfold nn; lia). rewrite MAX64_ones. apply N.ones_spec_low.
         apply N.mod_lt; discriminate.
-      + intros i. rewrite !bp_rows_bits_testbit; [|assumption|].
+      + intros i. dm64 i. rewrite !bp_rows_bits_testbit; [|assumption|].
         2:{ apply bp_Forall_nth. intros j x Hj. rewrite Hnew in Hj.
             destruct ((nn di <=? j)%nat && (j <? nn di + nr)%nat).
             - injection Hj as <-. reflexivity.
@@ -438,8 +445,8 @@ Section Toggle.
       + rewrite <- W64_pow. eapply bp_Forall_nth_inv; eassumption.
       + intros t Ht. specialize (Hall (64 * N.of_nat j + t)).
         rewrite bp_rows_bits_testbit in Hall by assumption.
-        replace (nn ((64 * N.of_nat j + t) / 64)) with j in Hall by (unfold nn; lia).
-        replace ((64 * N.of_nat j + t) mod 64) with t in Hall by lia.
+        destruct (bp_div64 (N.of_nat j) t Ht) as (E1 & E2). rewrite E1, E2 in Hall.
+        replace (nn (N.of_nat j)) with j in Hall by (unfold nn; lia).
         rewrite Ev in Hall. apply Hall. unfold nn in *. lia.
   Qed.
 
